@@ -23,6 +23,9 @@ pub fn final_request(srv: &Value, version: u32, client_pub: &[u8], key: &[u8], s
         "offset" => { let t = s2c.wrap(&le_increment(client_pub, gi(srv, "k", 0))); wrap_req(&t) }
         // numerically honest, one more high-order zero byte
         "padded" => { let mut p = honest_plain.clone(); p.push(0); let t = s2c.wrap(&p); wrap_req(&t) }
+        // correctly sealed, but only a prefix of key + 1 (n bytes) / key + 1 followed by non-zero bytes
+        "plain_prefix" => { let n = (gi(srv, "n", 0) as usize).min(honest_plain.len()); let t = s2c.wrap(&honest_plain[..n]); wrap_req(&t) }
+        "plain_suffix" => { let mut p = honest_plain.clone(); p.extend(vec![0x5a; gi(srv, "n", 1) as usize]); let t = s2c.wrap(&p); wrap_req(&t) }
         // the key of another certificate + 1 (relay / man in the middle terminating TLS with its own certificate)
         "other_cert" => {
             let (pem, _) = identity(srv.get("final").and_then(|f| f.get("other")).and_then(|x| x.as_str()).unwrap_or("leaf2"));
